@@ -214,8 +214,9 @@ func (w *Writer) Write(s seq.Sequence) (n int, err error) {
 	if err != nil {
 		return
 	}
+	start := s.Start()
 	for i := 0; i < s.Len(); i++ {
-		_n, err = w.w.Write([]byte{byte(s.At(i).L)})
+		_n, err = w.w.Write([]byte{byte(s.At(start + i).L)})
 		if n += _n; err != nil {
 			return
 		}
@@ -236,7 +237,7 @@ func (w *Writer) Write(s seq.Sequence) (n int, err error) {
 		}
 	}
 	for i := 0; i < s.Len(); i++ {
-		_n, err = w.w.Write([]byte{s.At(i).Q.Encode(enc)})
+		_n, err = w.w.Write([]byte{s.At(start + i).Q.Encode(enc)})
 		if n += _n; err != nil {
 			return
 		}
